@@ -271,7 +271,12 @@ func (s *stack) push(p *Path) {
 		parent.Next = p
 		p.Parent = parent
 	}
-	s.steps[s.count] = p
+	if s.count < len(s.steps) {
+		s.steps[s.count] = p
+	} else {
+		// expressions deeper than the initial capacity
+		s.steps = append(s.steps, p)
+	}
 	s.count++
 }
 
